@@ -101,48 +101,108 @@ theorem C19_keys_order_free (ps ps' : List HPair) (hperm : ps.Perm ps') (hd : Di
     (HashMapModel.entries ps).map HPair.key = (HashMapModel.entries ps').map HPair.key := by
   rw [C19_entries_order_free ps ps' hperm hd]
 
-/-! ### the compiler's hash literal: pairs sorted by the text of the key -/
+/-! ### the compiler's hash literal: pairs sorted by the text of the key, then of the value -/
+
+theorem pairLt_iff {α : Type} (a b : Str × Str × α) :
+    pairLt a b = true ↔ (Str.lt a.1 b.1 = true ∨ (a.1 = b.1 ∧ Str.lt a.2.1 b.2.1 = true)) := by
+  simp [pairLt]
+
+theorem pairLt_tri {α : Type} (a b : Str × Str × α) :
+    pairLt a b = true ∨ pairLt b a = true ∨ (a.1 = b.1 ∧ a.2.1 = b.2.1) := by
+  rw [pairLt_iff, pairLt_iff]
+  rcases Str.lt_total a.1 b.1 with h | h | h
+  · exact Or.inl (Or.inl h)
+  · exact Or.inr (Or.inl (Or.inl h))
+  · rcases Str.lt_total a.2.1 b.2.1 with h2 | h2 | h2
+    · exact Or.inl (Or.inr ⟨h, h2⟩)
+    · exact Or.inr (Or.inl (Or.inr ⟨h.symm, h2⟩))
+    · exact Or.inr (Or.inr ⟨h, h2⟩)
+
+theorem pairLt_trans {α : Type} (a b c : Str × Str × α) (h1 : pairLt a b = true) (h2 : pairLt b c = true) :
+    pairLt a c = true := by
+  rw [pairLt_iff] at *
+  rcases h1 with h1 | ⟨e1, h1⟩ <;> rcases h2 with h2 | ⟨e2, h2⟩
+  · exact Or.inl (Str.lt_trans _ _ _ h1 h2)
+  · exact Or.inl (e2 ▸ h1)
+  · exact Or.inl (e1 ▸ h2)
+  · exact Or.inr ⟨e1.trans e2, Str.lt_trans _ _ _ h1 h2⟩
+
+theorem pairLt_irrefl {α : Type} (a : Str × Str × α) : pairLt a a = false := by
+  cases h : pairLt a a
+  · rfl
+  · rw [pairLt_iff] at h
+    rcases h with h | ⟨_, h⟩ <;> rw [Str.lt_irrefl] at h <;> cases h
+
+theorem pairLt_congr {α : Type} (a b c : Str × Str × α) (e1 : a.1 = b.1) (e2 : a.2.1 = b.2.1) :
+    pairLt c a = pairLt c b := by
+  simp [pairLt, e1, e2]
 
 /-- the pairs of a hash literal are compiled in an order that is a permutation of the source pairs -/
-theorem C19_hash_literal_perm (pairs : List (Str × Pair)) :
-    (pairs.mergeSort (fun a b => !(Str.lt b.1 a.1))).Perm pairs := List.mergeSort_perm _ _
+theorem C19_hash_literal_perm (pairs : List (Str × Str × Pair)) :
+    (pairs.mergeSort (fun a b => !(pairLt b a))).Perm pairs := List.mergeSort_perm _ _
 
-/-- … and when the keys have distinct texts, that order does not depend on the order in which the
-    parser's map yields them -/
-theorem C19_hash_literal_order_free (ps ps' : List (Str × Pair)) (hperm : ps.Perm ps')
-    (hd : ∀ a ∈ ps, ∀ b ∈ ps, a.1 = b.1 → a = b) :
-    ps.mergeSort (fun a b => !(Str.lt b.1 a.1)) = ps'.mergeSort (fun a b => !(Str.lt b.1 a.1)) := by
-  have total : ∀ (a b : Str × Pair), ((!(Str.lt b.1 a.1)) || (!(Str.lt a.1 b.1))) = true := by
+/-- … and that order does not depend on the order in which the parser's map yields them: any two
+    orders of the same pairs compile to the same sequence, provided only that two pairs with the same
+    key text AND the same value text are the same pair (a key may be repeated - the compiler then
+    orders the duplicates by their values; this is the repair of KF-26) -/
+theorem C19_hash_literal_order_free (ps ps' : List (Str × Str × Pair)) (hperm : ps.Perm ps')
+    (hd : ∀ a ∈ ps, ∀ b ∈ ps, a.1 = b.1 → a.2.1 = b.2.1 → a = b) :
+    ps.mergeSort (fun a b => !(pairLt b a)) = ps'.mergeSort (fun a b => !(pairLt b a)) := by
+  have total : ∀ (a b : Str × Str × Pair), ((!(pairLt b a)) || (!(pairLt a b))) = true := by
     intro a b
-    cases h : Str.lt b.1 a.1
+    cases h : pairLt b a
     · simp
-    · simp [Str.lt_asymm _ _ h]
-  have trans : ∀ (a b c : Str × Pair), (!(Str.lt b.1 a.1)) = true → (!(Str.lt c.1 b.1)) = true → (!(Str.lt c.1 a.1)) = true := by
+    · cases h' : pairLt a b
+      · simp
+      · have := pairLt_trans _ _ _ h h'
+        rw [pairLt_irrefl] at this; cases this
+  have trans : ∀ (a b c : Str × Str × Pair), (!(pairLt b a)) = true → (!(pairLt c b)) = true → (!(pairLt c a)) = true := by
     intro a b c h1 h2
     simp only [Bool.not_eq_true'] at *
-    cases hca : Str.lt c.1 a.1
+    cases hca : pairLt c a
     · rfl
-    · -- c < a and ¬ b < a, ¬ c < b: then a ≤ b ≤ c, contradiction
-      rcases Str.lt_total a.1 b.1 with hab | hba | e
-      · rcases Str.lt_total b.1 c.1 with hbc | hcb | e2
-        · have := Str.lt_trans _ _ _ (Str.lt_trans _ _ _ hab hbc) hca
-          rw [Str.lt_irrefl] at this; cases this
-        · rw [hcb] at h2; cases h2
-        · rw [e2] at hab
-          have := Str.lt_trans _ _ _ hab hca
-          rw [Str.lt_irrefl] at this; cases this
+    · rcases pairLt_tri a b with hab | hba | ⟨e1, e2⟩
+      · rw [pairLt_trans _ _ _ hca hab] at h2; cases h2
       · rw [hba] at h1; cases h1
-      · rw [e] at hca
-        rw [hca] at h2; cases h2
-  apply List.Perm.eq_of_pairwise (le := fun a b => (!(Str.lt b.1 a.1)) = true)
+      · rw [pairLt_congr a b c e1 e2, h2] at hca; cases hca
+  apply List.Perm.eq_of_pairwise (le := fun a b => (!(pairLt b a)) = true)
   · intro a b ha hb h1 h2
     have ha' : a ∈ ps := (List.mergeSort_perm ps _).mem_iff.mp ha
     have hb' : b ∈ ps := hperm.mem_iff.mpr ((List.mergeSort_perm ps' _).mem_iff.mp hb)
     simp only [Bool.not_eq_true'] at h1 h2
-    exact hd a ha' b hb' (Str.eq_of_not_lt _ _ h2 h1)
+    rcases pairLt_tri a b with hab | hba | ⟨e1, e2⟩
+    · rw [hab] at h2; cases h2
+    · rw [hba] at h1; cases h1
+    · exact hd a ha' b hb' e1 e2
   · exact List.pairwise_mergeSort trans total ps
   · exact List.pairwise_mergeSort trans total ps'
   · exact (List.mergeSort_perm ps _).trans (hperm.trans (List.mergeSort_perm ps' _).symm)
+
+/-- the text of a hash literal (`HashLiteral.String()`, which the sort above reads when a hash literal
+    is itself a key or a value) is the same for every order of its pairs -/
+theorem C19_hash_literal_text_order_free (xs ys : List Str) (hperm : xs.Perm ys) :
+    xs.mergeSort (fun a b => !(Str.lt b a)) = ys.mergeSort (fun a b => !(Str.lt b a)) := by
+  have total : ∀ (a b : Str), ((!(Str.lt b a)) || (!(Str.lt a b))) = true := by
+    intro a b
+    cases h : Str.lt b a
+    · simp
+    · simp [Str.lt_asymm _ _ h]
+  have trans : ∀ (a b c : Str), (!(Str.lt b a)) = true → (!(Str.lt c b)) = true → (!(Str.lt c a)) = true := by
+    intro a b c h1 h2
+    simp only [Bool.not_eq_true'] at *
+    cases hca : Str.lt c a
+    · rfl
+    · rcases Str.lt_total a b with hab | hba | e
+      · rw [Str.lt_trans _ _ _ hca hab] at h2; cases h2
+      · rw [hba] at h1; cases h1
+      · rw [e, h2] at hca; cases hca
+  apply List.Perm.eq_of_pairwise (le := fun a b => (!(Str.lt b a)) = true)
+  · intro a b _ _ h1 h2
+    simp only [Bool.not_eq_true'] at h1 h2
+    exact Str.eq_of_not_lt _ _ h2 h1
+  · exact List.pairwise_mergeSort trans total xs
+  · exact List.pairwise_mergeSort trans total ys
+  · exact (List.mergeSort_perm xs _).trans (hperm.trans (List.mergeSort_perm ys _).symm)
 
 /-! ### constants -/
 
